@@ -61,6 +61,19 @@ func (s *unicastSubjectImpl[T]) Subscribe(destination Observer[T]) Subscription 
 // Implements Observable.
 func (s *unicastSubjectImpl[T]) SubscribeWithContext(subscriberCtx context.Context, destination Observer[T]) Subscription {
 	subscription := NewSubscriber(destination)
+	attached := false
+
+	// Runs once the lock is released (deferred calls run in reverse order): Add runs the
+	// teardown at once when the subscriber is already closed, and the teardown takes the lock.
+	defer func() {
+		if attached {
+			subscription.Add(func() {
+				s.mu.Lock()
+				s.observer = nil
+				s.mu.Unlock()
+			})
+		}
+	}()
 
 	s.mu.Lock()
 	defer s.mu.Unlock()
@@ -88,12 +101,7 @@ func (s *unicastSubjectImpl[T]) SubscribeWithContext(subscriberCtx context.Conte
 	s.values = []lo.Tuple2[context.Context, T]{}
 
 	s.observer = subscription
-
-	subscription.Add(func() {
-		s.mu.Lock()
-		s.observer = nil
-		s.mu.Unlock()
-	})
+	attached = true
 
 	return subscription
 }
